@@ -780,6 +780,10 @@ func fixedScenarios() [][]step {
 		{stNewM(), stEnv(0, "K0", "v0"), stEnv(1, "K0", "v1"), stEnv(1, "K0", "v2"), stNanosleep(1), stEnv(4, "K0", "v3"),
 			stEnv(4, "K1", "v0"), stEnv(1, "K1", "v1"), stInst(1, -1)},
 		{stNewM(), stNewS(), stListener(1), stName(0, "m0"), stInst(3, 2), stInst(0, 2), stInst(3, -1), stInst(3, 1), stListener(2), stInst(3, 4)},
+		// derive AFTER instantiating: what an instantiation may have remembered about a configuration must not reach the
+		// configurations derived from it later (overwriting a key keeps the number of pairs; adding one changes it)
+		{stNewM(), stEnv(0, "K0", "v0"), stEnv(1, "K1", "v1"), stInst(2, -1), stEnv(2, "K0", "v2"), stInst(3, -1), stInst(2, -1), stEnv(3, "K1", "v3"),
+			stInst(4, -1), stNanosleep(2), stInst(5, -1), stEnv(5, "K0", "v1"), stInst(6, -1), stEnv(2, "K2", "v0"), stInst(7, -1), stInst(2, -1)},
 		{stNewF(), stFSMount(0, 1, "/tmp"), stFSMount(1, 2, "tmp/"), stFSMount(1, 1, "a"), stFSMount(1, 2, "b"), stFSMount(3, 2, "c"),
 			stNewM(), stFSConfig(6, 1), stInst(7, -1), stFSMount(1, 1, "/tmp/")},
 		// siblings derived from a base holding 3 (then 5, 6, 7) mounts: the shape where a shared backing array with
